@@ -1060,7 +1060,7 @@ func (self *PathNode) Field(id thrift.FieldID, opts *Options) *PathNode {
 		return err
 	}
 	// fast path: use id to find the key.
-	if opts.StoreChildrenById && int(id) <= StoreChildrenByIdShreshold {
+	if opts.StoreChildrenById && int(id) <= StoreChildrenByIdShreshold && int(id) < len(self.Next) {
 		v := &self.Next[id]
 		if v.Path.t != 0 && v.Path.id() == id {
 			return v
@@ -1092,9 +1092,13 @@ func (self *PathNode) SetField(id thrift.FieldID, val Node, opts *Options) (bool
 		return false, err
 	}
 	// fast path: use id to find the key.
-	if opts.StoreChildrenById && int(id) <= StoreChildrenByIdShreshold {
+	// NOTICE: slot `id` holds field `id` only below the threshold (see scanChildren); it may be out of
+	// the loaded range, and when it is empty its path must be set along with the value.
+	if opts.StoreChildrenById && int(id) < StoreChildrenByIdShreshold && int(id) < len(self.Next) &&
+		(self.Next[id].Path.t == 0 || (self.Next[id].Path.t == PathFieldId && self.Next[id].Path.id() == id)) {
 		v := &self.Next[id]
 		exist := v.Path.t != 0
+		v.Path = NewPathFieldId(id)
 		v.Node = val
 		return exist, nil
 	}
